@@ -12,7 +12,14 @@ Units (model vs implementation, real RSA through `cryptography`, keys in harness
                   keyed entities executed sequentially in one thread (exhaustive up to a bounded length + random
                   longer ones); which certificate verifies every produced signature
                                                                         vs Model.Redirect.run_script (the LTS)
-  threads         (thorough) two real threads inside apply_binding, forced to meet between get_signer and sign
+  schedule_fresh  every trace up to a bounded length over {get_signer(sigkey=K), verify(cert=None, sigkey=K), get_signer,
+                  sign, apply_binding x two algorithms, verify, sign with the sigkey handle} of ONE entity, K another
+                  entity's key, each trace on entities built for it alone: the FIRST use of an algorithm on a crypto
+                  backend may be a call with a foreign key                vs Model.Redirect.run_script
+  preempt         two real threads, two differently keyed entities, same algorithm: one thread switch per thread at
+                  every bytecode of get_signer / every line of the other sigver frames (sys.settrace, deterministic)
+                                                                        vs Model.Redirect.run_script
+  threads         two free-running real threads inside apply_binding, forced to meet between get_signer and sign
 Implementation-level oracle (the property itself, no model): own certificate verifies, no other certificate does,
 every listed mutation stops verification, unsupported / missing algorithm never verifies, every Sign step's
 signature verifies under the signing entity's certificate; plus an independent `cryptography` verification of
@@ -32,24 +39,27 @@ from saml2_tophat import BINDING_HTTP_REDIRECT, pack, sigver, s_utils
 from saml2_tophat.sigver import verify_redirect_signature, RSACrypto
 
 CLAIM = {
-    "text": "Coq theorems (Props/C15.v) over a model of SIGNER_ALGS / RSACrypto.get_signer / RSASigner / pack.http_redirect_message / Entity.apply_binding / verify_redirect_signature with symbolic RSA, instantiated with the order tables, SIGNER_ALGS key set, SIG_ALLOWED_ALG and the urlencode flavour of each module REGENERATED from the source on every run: (1) for ALL byte strings: any query carrying a Signature value made over (kind, message value, RelayState present/absent, SigAlg) that verifies under ANY certificate, in any verifier state, has the signer's key as that certificate and exactly those four items (injectivity of the octet-string construction from the C14 codec lemmas), hence no other certificate and no single-parameter mutation verifies; unsupported / missing algorithm and missing / foreign Signature never verify, and neither does a candidate certificate text that cannot be read as a certificate, whoever verifies (C15_unreadable_cert_never_verifies); a signed query verifies under the signer's certificate for every supported algorithm, message value and RelayState (C15_own_cert_verifies: FULL statement, proved for today's regenerated encoder flags; before the repair 2c15a188 the two modules' urlencode differed on the tilde - witness C15_own_cert_verifies_refuted under that hypothesis); (2) for EVERY trace of the transition system (any entities, length, interleaving, any state at signing time) a Sign step made with a handle an entity obtained uses that entity's own key (C15_own_key_any_schedule: FULL statement, proved for today's regenerated flag 'get_signer returns a fresh signer'); for the shared-object behaviour before the repair 8429fa3f the file keeps the exact characterisation (a Sign uses the key last stored by anybody, induction over the trace) and the refutation by A.get_signer; B.get_signer (or B verifying); A.sign, both under the hypothesis that the flag says shared. Whether get_signer shares the module-level object and whether the two modules use the same urlencode are regenerated flags the model follows; C15_schedule_status / C15_encoder_status prove the FULL statements for the actual tables as soon as a repair flips a flag. Tie to the code: exhaustive bounded interleavings of two/three differently keyed real entities with real RSA, and an all-algorithms x request/response x mutation sweep through Entity.apply_binding and verify_redirect_signature, compared with the model on every run.",
-    "note": "Trusted: Coq kernel + vm_compute; symbolic RSA (unforgeability and digest distinctness are the assumption, real RSA/SHA enter only through the correspondence runs); the reflection translator harness/translate_c15.py; the hand-written model, tied to the code by the correspondence units. The message parameter VALUE (deflate+base64 of the message) is the model's input: zlib/base64 are C14's. Thread schedules are covered at the granularity of the three shared-state operations (get_signer, sign, verify); the real-thread run is supporting evidence. Two defects found by this check were repaired in /repo (fix: 8429fa3f shared signer object, fix: 2c15a188 tilde in RelayState; known_findings.json 'fixed'); if either returns, C15_own_key_any_schedule / C15_own_cert_verifies stop compiling against the regenerated flags and the schedule / sweep oracles produce the replay. Parameters not named in REQ_ORDER/RESP_ORDER are not covered by the signature (an unsigned extra parameter, including a SAMLResponse added next to a signed SAMLRequest, is ignored by verification): modelled, outside the statement.",
+    "text": "Coq theorems (Props/C15.v) over a model of SIGNER_ALGS / RSACrypto.get_signer / RSASigner / pack.http_redirect_message / Entity.apply_binding / verify_redirect_signature with symbolic RSA, instantiated with the order tables, SIGNER_ALGS key set, SIG_ALLOWED_ALG and the urlencode flavour of each module REGENERATED from the source on every run: (1) for ALL byte strings: any query carrying a Signature value made over (kind, message value, RelayState present/absent, SigAlg) that verifies under ANY certificate, in any verifier state, has the signer's key as that certificate and exactly those four items (injectivity of the octet-string construction from the C14 codec lemmas), hence no other certificate and no single-parameter mutation verifies; unsupported / missing algorithm and missing / foreign Signature never verify, and neither does a candidate certificate text that cannot be read as a certificate, whoever verifies (C15_unreadable_cert_never_verifies); a signed query verifies under the signer's certificate for every supported algorithm, message value and RelayState (C15_own_cert_verifies: FULL statement, proved for today's regenerated encoder flags; before the repair 2c15a188 the two modules' urlencode differed on the tilde - witness C15_own_cert_verifies_refuted under that hypothesis); (2) for EVERY trace of the transition system (any entities, length, interleaving, any state at signing time; the alphabet includes get_signer WITH a sigkey = a foreign key and verify with a sigkey, also as the first use of an algorithm by the signing entity itself) a Sign step made with a handle an entity obtained by an ordinary get_signer uses that entity's own key (C15_own_key_any_schedule: FULL statement, proved for today's regenerated flag 'get_signer returns a fresh signer'; C15_every_sign_in_trace_uses_own_key: the same by positions in one trace; C15_handle_key_is_the_requested_one: a handle signs with sigkey-or-own-key of the call that made it, in any later state; C15_apply_binding_own_key_after_any_history: apply_binding(sign=True) after any history signs with the caller's key, for both kinds of tables; C15_script_signs_with_own_key: induction over every script of the sugar the schedule units compare - every ordinary Sign / apply_binding step shows the acting entity's key; C15_no_shared_write: no step writes the process-wide table, so thread-switch granularity cannot matter); for the shared-object behaviour before the repair 8429fa3f the file keeps the exact characterisation (a Sign uses the key last stored by anybody, induction over the trace) and the refutation by A.get_signer; B.get_signer (or B verifying); A.sign, both under the hypothesis that the flag says shared. Whether get_signer shares the module-level object and whether the two modules use the same urlencode are regenerated flags the model follows; C15_schedule_status / C15_encoder_status prove the FULL statements for the actual tables as soon as a repair flips a flag. Tie to the code: exhaustive bounded interleavings of two/three differently keyed real entities with real RSA on long-lived objects; every bounded history of one entity that starts with a foreign-key call (get_signer(sigkey=K) / verify(sigkey=K)), each on entities built for it alone; every placement of one thread switch per thread inside get_signer (bytecode granularity) and the other sigver frames for two real threads signing with the same algorithm; and an all-algorithms x request/response x mutation sweep through Entity.apply_binding and verify_redirect_signature - all compared with the model on every run, with the property itself as oracle (each failure has a self-contained replay).",
+    "note": "Trusted: Coq kernel + vm_compute; symbolic RSA (unforgeability and digest distinctness are the assumption, real RSA/SHA enter only through the correspondence runs); the reflection translator harness/translate_c15.py; the hand-written model, tied to the code by the correspondence units. The message parameter VALUE (deflate+base64 of the message) is the model's input: zlib/base64 are C14's. Thread schedules: in the model at the granularity of the three operations (get_signer, sign, verify), justified by C15_no_shared_write (nothing shared is written) whose premise - get_signer leaves SIGNER_ALGS alone and keeps nothing on the backend - is measured by the translator (two backends, and one long-lived backend whose first use is a sigkey call) and exercised by the pre-emption unit at bytecode granularity (one switch per thread; schedules with more switches per thread are not enumerated). Two defects found by this check were repaired in /repo (fix: 8429fa3f shared signer object, fix: 2c15a188 tilde in RelayState; known_findings.json 'fixed'); if either returns, C15_own_key_any_schedule / C15_own_cert_verifies stop compiling against the regenerated flags and the schedule / sweep oracles produce the replay. Parameters not named in REQ_ORDER/RESP_ORDER are not covered by the signature (an unsigned extra parameter, including a SAMLResponse added next to a signed SAMLRequest, is ignored by verification): modelled, outside the statement.",
     "technique": "machine-checked proof (Coq: injectivity over all strings, induction over all traces) + regenerated-table obligations + deterministic step-sequencing correspondence with real RSA + mutation sweep",
 }
 TRUSTED = [
-    "Gen/RedirectConsts.v is regenerated by reflection from pack/sigver REQ_ORDER, RESP_ORDER, SIGNER_ALGS (keys and digest names), SIG_ALLOWED_ALG, a 256-byte measurement of pack.urlencode / sigver.urlencode and a sentinel-key measurement of RSACrypto.get_signer (shared object vs fresh signer) (harness/translate_c15.py)",
+    "Gen/RedirectConsts.v is regenerated by reflection from pack/sigver REQ_ORDER, RESP_ORDER, SIGNER_ALGS (keys and digest names), SIG_ALLOWED_ALG, a 256-byte measurement of pack.urlencode / sigver.urlencode and a sentinel-key measurement of RSACrypto.get_signer (shared object vs fresh signer; a backend that remembers a key between calls - e.g. after a first call with a sigkey - is refused) (harness/translate_c15.py)",
     "symbolic RSA: a signature value records key, digest and the exact octet string; verification succeeds iff all three agree (unforgeability, distinct digests never collide)",
     "modelled: RSACrypto.get_signer, RSASigner.sign/verify key selection, http_redirect_message signing branch, apply_binding redirect branch, verify_redirect_signature; NOT modelled: deflate/base64 of the message (C14), X.509 parsing, UTF-8 encoding of str values (done by the harness)",
     "the harness names which key made a Signature value it feeds back unaltered (provenance); real RSA verification under every candidate certificate is the comparison",
 ]
 ASSUMPTIONS = [
     "bytes are < 256 (Forall byte) in the binding theorems",
-    "thread switches inside RSASigner.sign / verify are not finer-grained than the model's steps (each reads the key once)",
+    "thread switches inside RSASigner.sign / verify are not finer-grained than the model's steps (each reads the key once); the pre-emption unit places ONE switch per thread (bytecodes of get_signer, lines of other sigver frames)",
+    "a sigkey handed to get_signer for SIGNING is a private key (a public one cannot sign: AttributeError, not modelled); key ids do not distinguish the two halves",
     "parameters outside REQ_ORDER/RESP_ORDER are not signed (extra unsigned parameters do not affect verification)",
 ]
 RULE = ("verify_sweep: every SIGNER_ALGS key x request/response x RelayState class x every single-parameter mutation x candidate certificates "
         "x verifying entity; schedule: every sequence up to the bounded length over {get_signer, sign, apply_binding, verify} x entities, plus "
-        "random longer ones over three entities and two algorithms (one long-lived process state: sequences run back to back). Non-trivial = a "
+        "random longer ones over three entities and two algorithms incl. sigkey calls (one set of long-lived objects: sequences run back to back); "
+        "schedule_fresh: every trace up to length 3 (sigkey call first: 4) over the one-entity alphabet with foreign-key calls, each on fresh entities; "
+        "preempt: all (i, j) placements of one thread switch per thread, both role assignments. Non-trivial = a "
         "real RSA signature was produced and checked under at least two certificates, or a mutation was applied; distinct by content.")
 
 KEYID = {"sp": 1, "idp": 2, "other": 3}
@@ -546,9 +556,43 @@ def unit_unreadable_cert(ctx):
 NAMES = ["sp", "idp", "other"]
 
 
+_KEYOBJ = {}
+
+
+def keyobj(name, kind):
+    """the key object of entity `name` as a caller would hand it over as `sigkey`: its private key (what
+    get_signer needs to sign) or the public key read from its certificate (what a verifier has)"""
+    if (name, kind) not in _KEYOBJ:
+        if kind == "priv":
+            _KEYOBJ[(name, kind)] = sigver.import_rsa_key_from_file(env.key(name))
+        else:
+            _KEYOBJ[(name, kind)] = sigver.extract_rsa_key_from_x509_cert(sigver.pem_format(certs()[name]))
+    return _KEYOBJ[(name, kind)]
+
+
+class FreshEntities(dict):
+    """entities built on first use: every trace run on one of these starts from objects nobody has used"""
+
+    def __missing__(self, name):
+        env.tool_inprocess(True)
+        if name == "sp":
+            e = env.make_sp()
+        elif name == "idp":
+            e = env.make_idp()
+        else:
+            e = env.make_sp(entityid="https://other.example.org/sp", key_file=env.key("other"), cert_file=env.cert("other"))
+        self[name] = e
+        return e
+
+
 def run_trace(tr, ents):
-    """tr: list of (kind, entity, alg, extra).  Executes the steps sequentially on the real objects.
-    Returns (observations, per-Sign records)"""
+    """tr: list of steps, executed sequentially on the real objects:
+         ("G", entity, alg)                          backend.get_signer(alg)                -> ordinary handle slot
+         ("GK", entity, alg, keyowner, priv|pub)     backend.get_signer(alg, sigkey=K)      -> sigkey handle slot
+         ("S" | "SK", entity, alg, response, rs)     use_http_get(signer = ordinary | sigkey handle)
+         ("A", entity, alg, response, rs)            apply_binding(BINDING_HTTP_REDIRECT, sign=True, sigalg=alg)
+         ("V", entity, alg, cert[, keyowner, kind])  verify_redirect_signature(latest query for alg, backend, cert, sigkey)
+    Returns (observations, per-Sign records, history)"""
     handles = {}
     made = []     # (alg, query)
     obs, signs = [], []
@@ -556,17 +600,20 @@ def run_trace(tr, ents):
     for step in tr:
         kind, en, alg = step[0], step[1], step[2]
         E = ents[en]
-        if kind == "G":
-            h = _call(E.sec.sec_backend.get_signer, alg)
-            handles[(en, alg)] = h
+        if kind in ("G", "GK"):
+            if kind == "G":
+                h = _call(E.sec.sec_backend.get_signer, alg)
+            else:
+                h = _call(E.sec.sec_backend.get_signer, alg, sigkey=keyobj(step[3], step[4]))
+            handles[(kind, en, alg)] = h
             obs.append([0, h is not None and not isinstance(h, Exn)])
-        elif kind in ("S", "A"):
+        elif kind in ("S", "SK", "A"):
             resp, rs = step[3], step[4]
             typ = "SAMLResponse" if resp else "SAMLRequest"
-            if kind == "S":
-                info = _call(E.use_http_get, MSG, DEST, rs, typ, sigalg=alg, signer=handles[(en, alg)])
-            else:
+            if kind == "A":
                 info = _call(E.apply_binding, BINDING_HTTP_REDIRECT, MSG, DEST, relay_state=rs, response=resp, sign=True, sigalg=alg)
+            else:
+                info = _call(E.use_http_get, MSG, DEST, rs, typ, sigalg=alg, signer=handles[("G" if kind == "S" else "GK", en, alg)])
             if isinstance(info, Exn):
                 obs.append([1, info])
                 who = info
@@ -584,9 +631,12 @@ def run_trace(tr, ents):
             signs.append(dict(pos=len(hist), kind=kind, entity=en, alg=alg, who=who))
         elif kind == "V":
             cname = step[3]
+            sk = keyobj(step[4], step[5]) if len(step) > 4 and step[4] else None
             q = next((qq for a, qq in made if a == alg), None) or {"SAMLRequest": "x", "SigAlg": alg, "Signature": "AAAA"}
-            r = _call(verify_redirect_signature, dict(q), E.sec.sec_backend, certs()[cname] if cname else None)
+            r = _call(verify_redirect_signature, dict(q), E.sec.sec_backend, certs()[cname] if cname else None, sk)
             obs.append([2, r])
+            if sk is not None:
+                kind = "VK"
         hist.append((kind, en, alg))
     return obs, signs, hist
 
@@ -597,34 +647,49 @@ def coq_trace(tr):
         kind, en, alg = step[0], step[1], step[2]
         if kind == "G":
             out.append("SGet %d %s" % (KEYID[en], cstr(alg)))
-        elif kind in ("S", "A"):
+        elif kind == "GK":
+            out.append("SGetK %d %s %d" % (KEYID[en], cstr(alg), KEYID[step[3]]))
+        elif kind in ("S", "SK", "A"):
             m = MSG_VALUE[0]
-            out.append("%s %d %s %s %s %s" % ("SSign" if kind == "S" else "SApply", KEYID[en], cbool(step[3]), cstr(m), cstr(b(step[4])), cstr(alg)))
+            out.append("%s %d %s %s %s %s" % ({"S": "SSign", "SK": "SSignK", "A": "SApply"}[kind], KEYID[en], cbool(step[3]), cstr(m), cstr(b(step[4])), cstr(alg)))
         else:
-            out.append("SVerify %d %s %s" % (KEYID[en], cstr(alg), copt(KEYID[step[3]] if step[3] else None, str)))
+            sk = KEYID[step[4]] if len(step) > 4 and step[4] else None
+            out.append("SVerify %d %s %s %s" % (KEYID[en], cstr(alg), copt(KEYID[step[3]] if step[3] else None, str), copt(sk, str)))
     return "[" + "; ".join(out) + "]"
 
 
 MSG_VALUE = []
 
+_BETWEEN = {"G": "other-get_signer-between-get-and-sign", "A": "other-apply_binding-between-get-and-sign",
+            "V": "other-verify-between-get-and-sign", "GK": "other-get_signer-with-sigkey-between-get-and-sign",
+            "VK": "other-verify-with-sigkey-between-get-and-sign"}
+
 
 def classify(sign, hist):
-    """which shape of history precedes a Sign step that used a foreign key"""
+    """which shape of history precedes a Sign step that did not use the signer's own key"""
     en, alg, pos = sign["entity"], sign["alg"], sign["pos"]
     if sign["kind"] == "A":
-        return "inside-apply_binding"
-    last_get = max(i for i in range(pos) if hist[i] == ("G", en, alg))
-    between = [h for h in hist[last_get + 1:pos] if h[1] != en and h[2] == alg and h[0] in ("G", "A", "V")]
-    if not between:
-        return "nobody-else-in-between"
-    last = between[-1]
-    return {"G": "other-get_signer-between-get-and-sign", "A": "other-apply_binding-between-get-and-sign", "V": "other-verify-between-get-and-sign"}[last[0]]
+        shape = "inside-apply_binding"
+    else:
+        last_get = max(i for i in range(pos) if hist[i] == ("G", en, alg))
+        between = [h for h in hist[last_get + 1:pos] if h[1] != en and h[2] == alg and h[0] in _BETWEEN]
+        shape = _BETWEEN[between[-1][0]] if between else "nobody-else-in-between"
+    # the entity's own earlier calls with a FOREIGN key (sigkey=...): the situation a per-backend memo gets wrong
+    own = [h for h in hist[:pos] if h[1] == en and h[0] in ("GK", "VK")]
+    if own:
+        same = [h for h in own if h[2] == alg]
+        last = (same or own)[-1]
+        shape += ":after-own-%s-with-sigkey%s" % ("get_signer" if last[0] == "GK" else "verify", "" if same else "-for-another-alg")
+    return shape
 
 
 def enabled(prefix, step):
-    if step[0] != "S":
-        return True
-    return any(p[0] == "G" and p[1] == step[1] and p[2] == step[2] for p in prefix)
+    if step[0] == "S":
+        return any(p[0] == "G" and p[1] == step[1] and p[2] == step[2] for p in prefix)
+    if step[0] == "SK":       # a public key cannot sign: only handles made over a private key are used for signing
+        return any(p[0] == "GK" and p[1] == step[1] and p[2] == step[2] for p in prefix) and \
+            all(p[4] == "priv" for p in prefix if p[0] == "GK" and p[1] == step[1] and p[2] == step[2])
+    return True
 
 
 def gen_traces(ctx, algs):
@@ -652,58 +717,157 @@ def gen_traces(ctx, algs):
         for _ in range(n):
             en = ctx.rng.choice(NAMES)
             alg = ctx.rng.choice([a1, a1, a2, a2, UNSUPPORTED[1]])
-            kind = ctx.rng.choice("GGSSAV")
-            if alg == UNSUPPORTED[1] and kind == "S":
+            kind = ctx.rng.choice(["G", "G", "S", "S", "A", "A", "V", "GK", "SK", "VK"])
+            if alg == UNSUPPORTED[1] and kind in ("S", "SK"):
                 kind = "A"
+            foreign = ctx.rng.choice([n for n in NAMES if n != en])
             if kind == "G":
                 s = ("G", en, alg)
-            elif kind in "SA":
+            elif kind == "GK":
+                s = ("GK", en, alg, foreign, ctx.rng.choice(["priv", "priv", "pub"]))
+            elif kind in ("S", "SK", "A"):
                 s = (kind, en, alg, ctx.rng.random() < 0.4, ctx.rng.choice(["", "rs", "a b&c"]))
+            elif kind == "VK":
+                s = ("V", en, alg, ctx.rng.choice([None, None, "sp", "idp"]), foreign, ctx.rng.choice(["pub", "priv"]))
             else:
                 s = ("V", en, alg, ctx.rng.choice(["sp", "idp", "other", None]))
             if not enabled(tr, s):
-                s = ("G", en, alg)
+                s = ("G", en, alg) if kind == "S" else ("GK", en, alg, foreign, "priv")
+                if not enabled(tr, s):        # a pub handle is already held for the sigkey slot
+                    s = ("A", en, alg, False, "rs")
             tr.append(s)
         traces.append(tr)
     return traces, exhaustive_n, maxlen
 
 
+def check_traces(ctx, unit, traces, fresh, maxlen):
+    """run every trace on the real objects (fresh=True: on entities built for that trace alone), apply the oracle to
+    every Sign step, return the correspondence cases"""
+    ents = None if fresh else FreshEntities()      # not fresh: ONE set of long-lived objects for all traces of this unit, nobody else's
+    algs = supported_algs()
+    cases = []
+    foreign = []
+    for ti, tr in enumerate(traces):
+        obs, signs, hist = run_trace(tr, FreshEntities() if fresh else ents)
+        cases.append(dict(id=ti, coq=coq_trace(tr), impl=obs, show=tr))
+        ctx.count("%s:len%d" % (unit, len(tr)) if len(tr) <= maxlen else "%s:random-long" % unit)
+        for s in signs:
+            ctx.count("%s:sign-steps" % unit)
+            if isinstance(s["who"], int):
+                ctx.nontriv((unit, tuple(map(tuple, tr)), s["pos"]))
+            if s["kind"] == "SK":             # signing with a handle asked for WITH a sigkey: compared with the model only
+                ctx.count("%s:sign-with-sigkey-handle" % unit)
+                continue
+            if s["alg"] not in algs:
+                if s["who"] is not None:
+                    ctx.oracle_fail("own-key:unsupported-alg-signed", "a Sign step with unsupported algorithm %s produced %r" % (s["alg"], s["who"]), dict(unit=unit, fresh=fresh, trace=tr))
+                continue
+            if s["who"] != KEYID[s["entity"]]:
+                shape = classify(s, hist)
+                ctx.count("%s:foreign-key:%s" % (unit, shape))
+                if isinstance(s["who"], Exn):
+                    what = "%s signs (%s, %s) at step %d and gets %s instead of a URL signed with its own key" % (
+                        s["entity"], s["kind"], s["alg"].rsplit("-", 1)[-1], s["pos"], s["who"].name)
+                else:
+                    what = "%s signs (%s, %s) at step %d but the signature verifies under key %r (keys: sp=1 idp=2 other=3), not under its own certificate" % (
+                        s["entity"], s["kind"], s["alg"].rsplit("-", 1)[-1], s["pos"], s["who"])
+                foreign.append((s["pos"] + 1, "own-key:" + shape, what, dict(unit="schedule", fresh=fresh, trace=tr[:s["pos"] + 1]), ti))
+            else:
+                ctx.count("%s:own-key" % unit)
+    foreign.sort(key=lambda f: f[0])          # shortest schedule first: it becomes the replay of its key
+    keys = set()
+    for _, key, what, rep, ti in foreign:
+        if key not in keys and not fresh:
+            # make the replay self-contained: the trace alone on fresh objects if that shows it, else preceded by
+            # every trace these long-lived objects went through before
+            en = rep["trace"][-1][1]
+            mine = [t for t in traces[:ti] if any(x[1] == en for x in t)]
+            poison = [t for t in mine if any(x[1] == en and (x[0] == "GK" or (x[0] == "V" and len(x) > 4)) for x in t)]
+            for after in ([], poison[:1], poison[-1:], poison, mine, traces[:ti]):
+                fe = FreshEntities()
+                for prev in after:
+                    run_trace(prev, fe)
+                _, signs2, _ = run_trace([tuple(x) for x in rep["trace"]], fe)
+                if signs2 and signs2[-1]["who"] != KEYID[signs2[-1]["entity"]]:
+                    break
+            rep = dict(rep, fresh=True) if not after else dict(rep, after=after)
+        keys.add(key)
+        ctx.oracle_fail(key, what, rep)
+    return cases
+
+
 def unit_schedule(ctx):
-    ents = entities()
     algs = supported_algs()
     v = s_utils.deflate_and_base64_encode(MSG)
     MSG_VALUE[:] = [v if isinstance(v, bytes) else v.encode()]
     traces, exhaustive_n, maxlen = gen_traces(ctx, algs)
-    cases = []
-    foreign = []
-    for ti, tr in enumerate(traces):
-        obs, signs, hist = run_trace(tr, ents)
-        cases.append(dict(id=ti, coq=coq_trace(tr), impl=obs, show=tr))
-        ctx.count("schedule:len%d" % len(tr) if len(tr) <= maxlen else "schedule:random-long")
-        for s in signs:
-            ctx.count("schedule:sign-steps")
-            if isinstance(s["who"], int):
-                ctx.nontriv(("schedule", tuple(map(tuple, tr)), s["pos"]))
-            if s["alg"] not in algs:
-                if s["who"] is not None:
-                    ctx.oracle_fail("own-key:unsupported-alg-signed", "a Sign step with unsupported algorithm %s produced %r" % (s["alg"], s["who"]), dict(unit="schedule", trace=tr))
-                continue
-            if s["who"] != KEYID[s["entity"]]:
-                shape = classify(s, hist)
-                ctx.count("schedule:foreign-key:" + shape)
-                foreign.append((s["pos"] + 1, "own-key:" + shape,
-                                "%s signs (%s) at step %d but the signature verifies under key %r (keys: sp=1 idp=2 other=3), not under its own certificate" % (
-                                    s["entity"], s["alg"].rsplit("-", 1)[-1], s["pos"], s["who"]),
-                                dict(unit="schedule", trace=tr[:s["pos"] + 1])))
-            else:
-                ctx.count("schedule:own-key")
-    foreign.sort(key=lambda f: f[0])          # shortest schedule first: it becomes the replay of its key
-    for _, key, what, rep in foreign:
-        ctx.oracle_fail(key, what, rep)
+    cases = check_traces(ctx, "schedule", traces, False, maxlen)
     ctx.extra["schedule"] = dict(exhaustive_up_to_length=maxlen, exhaustive_traces=exhaustive_n, random_long_traces=len(traces) - exhaustive_n,
-                                 alphabet="get_signer / sign-with-held-handle / apply_binding / verify x {sp, idp} x one algorithm (exhaustive part)")
+                                 alphabet="get_signer / sign-with-held-handle / apply_binding / verify x {sp, idp} x one algorithm (exhaustive part); "
+                                          "random part: + get_signer(sigkey=K) / sign with that handle / verify(sigkey=K), three entities, two algorithms + an unsupported one")
     ctx.sample(dict(unit="schedule", trace=traces[exhaustive_n - 1], observed=cases[exhaustive_n - 1]["impl"]))
     correspond(ctx, "schedule", "Model.Redirect", "show_script actual", "(list sop)", cases, shard=150)
+
+
+# ------------------------------------------------------------------ unit: histories on FRESH entities that start with a foreign key
+def gen_fresh_traces(ctx, algs):
+    """Every trace here is run on entities built for it alone (no state shared between traces), so the FIRST use
+    of an algorithm on a crypto backend can be a call with a foreign key: backend.get_signer(alg, sigkey=K) or
+    verify_redirect_signature(query, backend, cert=None, sigkey=K), K another entity's key.  Exhaustive up to the
+    stated length over the alphabet of ONE entity x two algorithms; longer ones start with a sigkey call."""
+    a1 = algs[min(2, len(algs) - 1)]
+    a2 = algs[0]
+    traces = []
+    spec = {}
+    for X, Y, resp, full, longer in (("sp", "idp", False, 3, 4), ("idp", "other", True, 2 if ctx.quick else 3, 3 if ctx.quick else 4)):
+        GK1, VK1 = ("GK", X, a1, Y, "priv"), ("V", X, a1, None, Y, "pub")
+        plain = [("G", X, a1), ("S", X, a1, resp, "rs"), ("A", X, a1, resp, "rs"), ("A", X, a2, resp, ""), ("G", X, a2), ("S", X, a2, resp, "rs")]
+        alpha = [GK1, VK1] + plain + [("V", X, a1, Y), ("SK", X, a1, resp, "rs")]
+        if not ctx.quick:
+            alpha += [("GK", X, a2, Y, "priv"), ("V", X, a1, None, Y, "priv"), ("GK", X, a1, Y, "pub")]
+
+        def rec(prefix, letters, maxlen):
+            if prefix:
+                traces.append(list(prefix))
+            if len(prefix) == maxlen:
+                return
+            for st in letters:
+                if enabled(prefix, st):
+                    rec(prefix + [st], letters, maxlen)
+        rec([], alpha, full)
+        # longer: a sigkey call first, then every continuation over the ordinary operations
+        for first in (GK1, VK1):
+            def rec2(prefix):
+                if len(prefix) > full:
+                    traces.append(list(prefix))
+                if len(prefix) == longer:
+                    return
+                for st in plain:
+                    if enabled(prefix, st):
+                        rec2(prefix + [st])
+            rec2([first])
+        spec[X] = dict(foreign_key_of=Y, exhaustive_up_to_length=full, sigkey_first_up_to_length=longer, alphabet=len(alpha))
+    # two entities on fresh objects: X's sigkey call, the key owner's and X's ordinary signing afterwards
+    for X, Y in (("sp", "idp"), ("idp", "sp")):
+        for first in (("GK", X, a1, Y, "priv"), ("V", X, a1, None, Y, "pub"), ("GK", X, a1, Y, "pub")):
+            for mid in (("A", Y, a1, False, "rs"), ("G", Y, a1), ("V", Y, a1, None, X, "pub")):
+                traces.append([first, mid, ("A", X, a1, False, "rs"), ("A", Y, a1, False, "rs")])
+                traces.append([first, ("G", X, a1), mid, ("S", X, a1, False, ""), ("A", X, a2, True, "rs")])
+    return traces, spec
+
+
+def unit_schedule_fresh(ctx):
+    algs = supported_algs()
+    v = s_utils.deflate_and_base64_encode(MSG)
+    MSG_VALUE[:] = [v if isinstance(v, bytes) else v.encode()]
+    traces, spec = gen_fresh_traces(ctx, algs)
+    cases = check_traces(ctx, "schedule_fresh", traces, True, 5)
+    ctx.extra["schedule_fresh"] = dict(traces=len(traces), per_entity=spec,
+                                       alphabet="get_signer(sigkey=K) / verify(cert=None, sigkey=K) / get_signer / sign / apply_binding x two algorithms / verify / sign with the sigkey handle, "
+                                                "every trace on entities built for it alone")
+    pick = next(i for i, t in enumerate(traces) if len(t) == 3 and t[0][0] == "GK" and t[2][0] == "A")
+    ctx.sample(dict(unit="schedule_fresh", trace=traces[pick], observed=cases[pick]["impl"]))
+    correspond(ctx, "schedule_fresh", "Model.Redirect", "show_script actual", "(list sop)", cases, shard=150)
 
 
 # ------------------------------------------------------------------ unit: real threads (thorough)
@@ -754,6 +918,167 @@ def unit_threads(ctx, rounds=200):
                         dict(unit="threads", rounds=rounds))
 
 
+# ------------------------------------------------------------------ unit: deterministic pre-emption of two real threads
+class Preempt(object):
+    """Two real threads, only one of which runs at any time.  Thread t is suspended just BEFORE its pauses[t]-th
+    switch point and resumed by the controller: thread 0 runs to its pause, thread 1 runs to its pause, thread 0
+    runs to the end, thread 1 runs to the end.  Switch points (sys.settrace): every bytecode of a frame of
+    RSACrypto.get_signer (a thread switch can happen between any two bytecodes) and every line of any other frame
+    of saml2_tophat.sigver (RSASigner.__init__, RSASigner.sign, helpers get_signer may call).  pauses[t] = 0: never
+    suspended.  A thread that does not come back within `patience` seconds is blocked on a lock the suspended thread
+    holds (a get_signer serialised with a lock is fine): the other thread is resumed and both run to the end."""
+
+    def __init__(self, fns, pauses, all_opcodes=False, patience=0.1):
+        self.fns, self.pauses, self.all_opcodes, self.patience = fns, pauses, all_opcodes, patience
+        self.turn = [threading.Semaphore(0), threading.Semaphore(0)]
+        self.ctrl = threading.Semaphore(0)
+        self.count = [0, 0]
+        self.where = [None, None]
+        self.result = [None, None]
+        self.state = ["paused", "paused"]
+        self.blocked = [None, None]
+        self.file = sigver.__file__[:-1] if sigver.__file__.endswith(".pyc") else sigver.__file__
+
+    def _tracer(self, t):
+        def local(frame, event, arg):
+            if event == ("opcode" if frame.f_trace_opcodes else "line"):
+                self.count[t] += 1
+                if self.count[t] == self.pauses[t]:
+                    self.where[t] = "%s:%d+%d" % (frame.f_code.co_name, frame.f_lineno, frame.f_lasti)
+                    self.state[t] = "paused"
+                    self.ctrl.release()
+                    self.turn[t].acquire()
+            return local
+
+        def glob(frame, event, arg):
+            if event == "call" and frame.f_code.co_filename == self.file:
+                if self.all_opcodes or frame.f_code.co_name == "get_signer":
+                    frame.f_trace_opcodes = True
+                return local
+            return None
+        return glob
+
+    def _worker(self, t):
+        self.turn[t].acquire()
+        sys.settrace(self._tracer(t))
+        try:
+            self.result[t] = _call(self.fns[t])
+        finally:
+            sys.settrace(None)
+            self.state[t] = "done"
+            self.ctrl.release()
+
+    def run(self):
+        import time
+        ths = [threading.Thread(target=self._worker, args=(t,)) for t in (0, 1)]
+        [t.start() for t in ths]
+        for t in (0, 1, 0, 1):
+            if self.state[t] == "paused":
+                self.state[t] = "running"
+                self.turn[t].release()
+                if not self.ctrl.acquire(timeout=self.patience if (self.pauses[0] and self.count[1 - t]) else 5.0):
+                    self.blocked[t] = self.count[t]
+        deadline = time.time() + 10
+        while not all(st == "done" for st in self.state) and time.time() < deadline:
+            for t in (0, 1):
+                if self.state[t] == "paused":
+                    self.state[t] = "running"
+                    self.turn[t].release()
+            self.ctrl.acquire(timeout=0.05)
+        [t.join(5) for t in ths]
+        return self.result
+
+
+_WARM = []
+
+
+def preempt_once(ents, first, second, alg, i, j, all_opcodes=False):
+    if not _WARM:       # the first traced frame of a process gets no bytecode events: spend it before anything is counted
+        _WARM.append(1)
+        for _ in range(4):
+            p, _w = preempt_once(ents, first, second, alg, 0, 0, all_opcodes)
+            if p.count[0] == p.count[1]:
+                break
+
+    def job(name):
+        return lambda: ents[name].apply_binding(BINDING_HTTP_REDIRECT, MSG, DEST, relay_state="p", sign=True, sigalg=alg)
+    p = Preempt([job(first), job(second)], [i, j], all_opcodes)
+    res = p.run()
+    who = []
+    for info in res:
+        if info is None:
+            who.append(Exn("thread-did-not-finish"))
+        elif isinstance(info, Exn):
+            who.append(info)
+        else:
+            url = location(info)
+            q = query_of(url)
+            w = who_verifies(q) if "Signature" in q else []
+            ind = [n for n in NAMES if independent_verifies(url, n)]
+            who.append(Exn("observers-disagree") if w != ind else KEYID[w[0]] if len(w) == 1 else (None if not w else [KEYID[x] for x in w]))
+    return p, who
+
+
+def unit_preempt(ctx):
+    """(b) of the quantifier: two differently keyed entities sign with the SAME algorithm in two real threads; every
+    placement of one thread switch inside the first thread's get_signer / sign and one inside the second's."""
+    ents = entities()
+    alg = supported_algs()[min(2, len(supported_algs()) - 1)]
+    v = s_utils.deflate_and_base64_encode(MSG)
+    MSG_VALUE[:] = [v if isinstance(v, bytes) else v.encode()]
+    seen = {}
+    total = bad = 0
+    allop = not ctx.quick
+    for first, second in (("sp", "idp"), ("idp", "sp")):
+        p0, who0 = preempt_once(ents, first, second, alg, 0, 0, allop)       # sequential: counts the switch points
+        n0, n1 = p0.count
+        ctx.count("preempt:switch-points-%s" % first, n0)
+        if n0 < 8 or n1 != n0:
+            ctx.broken.append(("harness:preempt", "the tracer saw only %d / %d switch points inside sigver.py during apply_binding(sign=True)" % (n0, n1)))
+        for i in [0] + list(range(1, n0 + 1)):
+            blocked_at = None
+            for j in [0] + list(range(1, n1 + 1)):
+                if (i, j) == (0, 0):
+                    p, who = p0, who0
+                else:
+                    if blocked_at is not None and j > blocked_at:
+                        continue                      # the second thread never gets that far while the first is suspended here
+                    p, who = preempt_once(ents, first, second, alg, i, j, allop)
+                    if p.blocked[1] is not None:       # seen twice at the same point: it waits for a lock, it is not just slow
+                        p, who = preempt_once(ents, first, second, alg, i, j, allop)
+                        if p.blocked[1] is not None and p.blocked[1] < j:
+                            blocked_at = p.blocked[1]
+                            ctx.count("preempt:second-thread-waited-for-a-lock")
+                total += 1
+                ctx.nontriv(("preempt", first, i, j))
+                want = [KEYID[first], KEYID[second]]
+                impl = [[1, who[0]], [1, who[1]]]
+                seen.setdefault((first, second, json.dumps(core_jsonable(impl))), dict(
+                    id=len(seen), impl=impl, show=dict(first=first, second=second, i=i, j=j, paused_at=p.where),
+                    coq="[SApply %d false %s %s %s; SApply %d false %s %s %s]" % (
+                        KEYID[first], cstr(MSG_VALUE[0]), cstr(b"p"), cstr(alg), KEYID[second], cstr(MSG_VALUE[0]), cstr(b"p"), cstr(alg))))
+                if who != want:
+                    bad += 1
+                    victim = 0 if who[0] != want[0] else 1
+                    fn = (p.where[victim] or p.where[1 - victim] or "?").split(":")[0]
+                    ctx.oracle_fail("own-key:thread-switch-inside-%s" % fn,
+                                    "two threads sign with %s: %s is suspended at %s, %s at %s (function:line+bytecode offset); the URLs verify under keys %r, "
+                                    "expected %r (sp=1 idp=2)" % (alg.rsplit("-", 1)[-1], first, p.where[0], second, p.where[1], who, want),
+                                    dict(unit="preempt", first=first, second=second, alg=alg, i=i, j=j, all_opcodes=allop))
+    ctx.count("preempt:schedules", total)
+    ctx.count("preempt:foreign-key-or-error", bad)
+    ctx.extra["preempt"] = dict(schedules=total, switch_points="every bytecode of get_signer frames%s, every line of other saml2_tophat.sigver frames, during apply_binding(sign=True)" % (
+        " and of every other sigver frame" if allop else ""), shape="first thread suspended at i, second at j, first finishes, second finishes; all (i, j), both role assignments")
+    cases = list(seen.values())
+    ctx.sample(dict(unit="preempt", schedules=total, distinct_outcomes=len(cases), example=cases[-1]["show"]))
+    correspond(ctx, "preempt", "Model.Redirect", "show_script actual", "(list sop)", cases, shard=150)
+
+
+def core_jsonable(x):
+    import core
+    return core.jsonable(x)
+
+
 # ------------------------------------------------------------------
 def run(ctx):
     unit_sign_string(ctx)
@@ -761,8 +1086,9 @@ def run(ctx):
     unit_verify_sweep(ctx)
     unit_unreadable_cert(ctx)
     unit_schedule(ctx)
-    if not ctx.quick:
-        unit_threads(ctx)
+    unit_schedule_fresh(ctx)
+    unit_preempt(ctx)
+    unit_threads(ctx, rounds=40 if ctx.quick else 200)
     ctx.exhaustive = False
     ctx.notes.append("verify_sweep is exhaustive over SIGNER_ALGS x {request, response} x the mutation list; schedule is exhaustive up to the stated length; both have random/unbounded remainders, so `exhaustive` is reported false")
 
@@ -778,6 +1104,8 @@ def cex_search(ctx):
     try:
         unit_verify_sweep(ctx)
         unit_schedule(ctx)
+        unit_schedule_fresh(ctx)
+        unit_preempt(ctx)
         unit_threads(ctx, rounds=50)
     finally:
         ctx.tier = saved_tier
@@ -790,12 +1118,24 @@ def replay(ctx, payload):
     ents = entities()
     if inp.get("unit") == "schedule":
         tr = [tuple(s) for s in inp["trace"]]
-        obs, signs, hist = run_trace(tr, ents)
+        v = s_utils.deflate_and_base64_encode(MSG)
+        MSG_VALUE[:] = [v if isinstance(v, bytes) else v.encode()]
+        fe = FreshEntities()
+        for prev in inp.get("after", []):
+            run_trace([tuple(x) for x in prev], fe)
+        if inp.get("after"):
+            print("  (after %d earlier traces on the same long-lived entities)" % len(inp["after"]))
+        obs, signs, hist = run_trace(tr, fe)
         for s, o in zip(tr, obs):
             print("  %-60s -> %r" % (s, o))
         for s in signs:
             print("  sign step %d by %s: verifies under key %r (own key is %d)" % (s["pos"], s["entity"], s["who"], KEYID[s["entity"]]))
-        return 1 if any(s["who"] != KEYID[s["entity"]] for s in signs if s["alg"] in supported_algs()) else 0
+        return 1 if any(s["who"] != KEYID[s["entity"]] for s in signs if s["alg"] in supported_algs() and s["kind"] != "SK") else 0
+    if inp.get("unit") == "preempt":
+        p, who = preempt_once(ents, inp["first"], inp["second"], inp["alg"], inp["i"], inp["j"], inp.get("all_opcodes", False))
+        print("  thread 1 (%s) suspended at %s, thread 2 (%s) suspended at %s" % (inp["first"], p.where[0], inp["second"], p.where[1]))
+        print("  URLs verify under keys %r, own keys are %r" % (who, [KEYID[inp["first"]], KEYID[inp["second"]]]))
+        return 0 if who == [KEYID[inp["first"]], KEYID[inp["second"]]] else 1
     if inp.get("unit") == "sweep":
         E = ents[inp["signer"]]
         info = E.apply_binding(BINDING_HTTP_REDIRECT, MSG, DEST, relay_state=inp["rs"], response=inp["typ"] == "SAMLResponse", sign=True, sigalg=inp["alg"])
